@@ -28,6 +28,7 @@ type Result struct {
 	Before   map[string]map[string]string // server -> id -> json, before the run
 	After    map[string]map[string]string
 	faultedDeref map[string]bool
+	faultTask    string // when set, only this request's failed Dereferences count for the models
 }
 
 func callerFn() string {
